@@ -22,6 +22,8 @@ type PropDef struct {
 	ThoroughGOOS []string
 	Run          func(p *Prog, r *Report)
 	Controls     []Mutant
+	// Neutral: behaviour-preserving variants of the real code; the property's rules must stay silent on them
+	Neutral []Mutant
 }
 
 // Mutant is an overlay control: replace Old by New in File (relative to /repo), the rule must
@@ -141,6 +143,48 @@ func mutantOverlay(m Mutant) (map[string][]byte, string) {
 
 // runMutant: exit 0 fired, 3 missed, 4 skipped, 5 mutant does not compile.
 func runMutant(pd *PropDef, name string) int {
+	for _, m := range pd.Neutral {
+		if m.Name != name {
+			continue
+		}
+		ov, skip := mutantOverlay(m)
+		if ov == nil {
+			fmt.Println(skip)
+			return 4
+		}
+		r := NewReport(pd.ID, "quick")
+		r.quiet = true
+		analyse(pd, r, "quick", ov)
+		r.checkFloors()
+		for _, o := range r.obls {
+			if o.Rule == "load" {
+				fmt.Println("variant does not type-check: " + short(o.Detail, 300))
+				return 5
+			}
+		}
+		known, _, _ := loadKnown(filepath.Join(verifDir, "known_findings.txt"))
+		var alarms []string
+		for _, o := range r.obls {
+			if o.Verdict < Violation {
+				continue
+			}
+			isKnown := false
+			for _, k := range known {
+				if k.prop == pd.ID && k.rule == o.Rule && k.site == o.Site {
+					isKnown = true
+				}
+			}
+			if !isKnown {
+				alarms = append(alarms, "["+o.Rule+"] "+o.Site+": "+short(o.Detail, 160))
+			}
+		}
+		if len(alarms) > 0 {
+			fmt.Printf("FALSE-ALARM on a behaviour-preserving variant: %v\n", alarms)
+			return 3
+		}
+		fmt.Println("quiet")
+		return 0
+	}
 	for _, m := range pd.Controls {
 		if m.Name != name {
 			continue
@@ -185,10 +229,11 @@ func runControls(pd *PropDef, r *Report) {
 		r.Note("controls not run: %v", err)
 		return
 	}
-	res := make([]controlResult, len(pd.Controls))
+	all := append(append([]Mutant{}, pd.Controls...), pd.Neutral...)
+	res := make([]controlResult, len(all))
 	sem := make(chan struct{}, 4)
 	var wg sync.WaitGroup
-	for i, m := range pd.Controls {
+	for i, m := range all {
 		wg.Add(1)
 		go func(i int, m Mutant) {
 			defer wg.Done()
@@ -203,22 +248,37 @@ func runControls(pd *PropDef, r *Report) {
 				code = -1
 			}
 			cr := controlResult{Name: m.Name, Kind: "mutant", Detail: short(strings.TrimSpace(string(out)), 240)}
+			neutral := i >= len(pd.Controls)
+			if neutral {
+				cr.Kind = "neutral-variant"
+			}
 			switch code {
 			case 0:
 				cr.Result = "fired"
+				if neutral {
+					cr.Result = "quiet"
+				}
 			case 4, 5:
 				cr.Result = "skipped"
 			default:
 				cr.Result = "MISSED"
+				if neutral {
+					cr.Result = "FALSE-ALARM"
+				}
 			}
 			res[i] = cr
 		}(i, m)
 	}
 	wg.Wait()
-	fired, missed, skipped := 0, 0, 0
+	fired, missed, skipped, quiet, falseAlarms := 0, 0, 0, 0, 0
 	for _, c := range res {
 		r.controls = append(r.controls, c)
 		switch c.Result {
+		case "quiet":
+			quiet++
+		case "FALSE-ALARM":
+			falseAlarms++
+			fmt.Printf("CONTROL-FALSE-ALARM: %s %s: %s\n", pd.ID, c.Name, c.Detail)
 		case "fired":
 			fired++
 		case "MISSED":
@@ -231,6 +291,8 @@ func runControls(pd *PropDef, r *Report) {
 	r.Count("controls_fired", fired)
 	r.Count("controls_missed", missed)
 	r.Count("controls_skipped", skipped)
+	r.Count("neutral_variants_quiet", quiet)
+	r.Count("neutral_variants_false_alarm", falseAlarms)
 }
 
 func doReplay(path string) int {
